@@ -190,6 +190,14 @@ func c18Build(c *c18Case) (shared []any, ops []c18Op, err error) {
 			}
 		}
 	}
+	if (c.KeyIdx+3)%3 != 2 {
+		// optional members, key_ops with a repeated entry and spare capacity behind it
+		kops := make([]cose.KeyOp, 0, 8)
+		key.Ops = append(kops, cose.KeyOpVerify, cose.KeyOpVerify, cose.KeyOpSign, cose.KeyOpDeriveKey)
+		key.ID = []byte("c18-key")
+		key.BaseIV = []byte{1, 2, 3}
+		stats.Class("key/with-key_ops")
+	}
 	shared = append(shared, key)
 	ops = append(ops,
 		c18Op{"Key.MarshalCBOR", func() string { b, e := key.MarshalCBOR(); return hex.EncodeToString(b) + errStr(e) }},
